@@ -5,6 +5,7 @@ from math import prod
 from typing import Callable, Dict, List, Optional, Tuple, Union
 
 import jax.numpy as jnp
+import numpy as np
 import pandas as pd
 
 from jaxley.modules import Module
@@ -233,6 +234,14 @@ def integrate(
         raise ValueError("No recordings are set. Please set them.")
     rec_inds = module.recordings.rec_index.to_numpy()
     rec_states = module.recordings.state.to_numpy()
+    # Synaptic states and currents are stored per synapse type. Their `rec_index` is
+    # the global edge index, which has to be mapped to the index within the type.
+    is_synaptic = np.isin(
+        rec_states, module.synapse_state_names + module.synapse_current_names
+    )
+    if np.any(is_synaptic):
+        rec_inds = rec_inds.copy()
+        rec_inds[is_synaptic] = module._edge_inds_within_type(rec_inds[is_synaptic])
 
     # Shorten or pad stimulus depending on `t_max`.
     if t_max is not None:
